@@ -60,6 +60,11 @@ var c20Stmts = []string{
 	`set_measurement("")`,                    // a script may leave the measurement empty
 	`use("nginx.access.p")`,                  // a script file whose name has several dots
 	`use(".base.v1.2.ppl")`,                  // ... and starts with one
+	`add_key(nilf, nil)`,                     // keys without a value are part of the point
+	`set_tag(emptyt, "")`,
+	`use("usesbroken.p")`,                    // a sibling that loads only if ITS sibling does (it does not)
+	`use("cyc1.p")`,                          // a sibling on a use() cycle
+	`use("usesmissing.p")`,                   // a sibling using a script that does not exist
 }
 
 // the sibling is a CRLF file with a multi-line literal across a line break
@@ -74,6 +79,10 @@ const (
 	c20DotBase  = "add_key(from_dot_base, 1)\nset_measurement(f1s, true)\n"
 )
 
+// siblings that exist and parse, but do not link
+var c20Unlinkable = map[string]string{"usesbroken.p": "add_key(a, 1)\nuse(\"badcheck.ppl\")\n", "cyc1.p": "use(\"cyc2.p\")\n", "cyc2.p": "add_key(c, 2)\nuse(\"cyc1.p\")\n", "usesmissing.p": "use(\"not_there.p\")\n"}
+
+
 // c20Layout writes the workspace: the selected script, a sibling reached
 // through use() that is a SYMBOLIC LINK to a file kept elsewhere (shared
 // scripts, ConfigMap-style mounts), another valid script, two scripts that do
@@ -83,6 +92,9 @@ func c20Layout(dir, mainSrc string) {
 	for n, s := range map[string]string{"main.p": mainSrc, "main.ppl": c20MainPPL, "other.ppl": c20Other, "broken.p": c20Broken, "badcheck.ppl": c20BadCheck, "notes.txt": "this is not a script (((",
 		"nginx.access.p": c20Dotted, ".base.v1.2.ppl": c20DotBase} {
 		_ = os.WriteFile(filepath.Join(dir, n), []byte(s), 0o644)
+	}
+	for n, src := range c20Unlinkable {
+		_ = os.WriteFile(filepath.Join(dir, n), []byte(src), 0o644)
 	}
 	_ = os.Mkdir(filepath.Join(dir, "sub.p"), 0o755)
 	// directories below the workspace are not part of it: namesakes of the selected script and of the
@@ -121,6 +133,8 @@ func c20Inputs() []c20Input {
 		{"text-bom-percent", "text", "\ufeff95% done, 5%d left"},
 		// escaped characters in every part of the key: the measurement reads cpu=load,x "y", the tag ho st = a,b=c
 		{"lp-escaped-key", "lineprotocol", "cpu\\=load\\,x\\ \\\"y\\\",ho\\ st=a\\,b\\=c,t2=v f1=8i,f1s=\"m8\",ts=\"2021-01-02 03:04:05\" 1600000005000000000\n"},
+		// one name as a tag and as a field
+		{"lp-tag-and-field", "lineprotocol", "dup,status=ok,host=h status=200i,f1=9i,f1s=\"m9\",ts=\"2021-01-02 03:04:05\" 1600000006000000000\n"},
 		{"lp-bom-percent", "lineprotocol", "\ufeffc%pu,ho%st=a%20b f1=3i,f1s=\"50%s\",p%c=\"100%\" 1600000004000000000\n"},
 	}
 }
@@ -356,6 +370,9 @@ func c20One(w *run.Worker, bin string, c c20Case, in c20Input) {
 		scripts["badcheck.ppl"] = c20BadCheck
 		scripts["nginx.access.p"] = c20Dotted
 		scripts[".base.v1.2.ppl"] = c20DotBase
+		for n, src := range c20Unlinkable {
+			scripts[n] = src
+		}
 	}
 	exp, loadErr, runErr := c20Expected(scripts, "main.p", in)
 	r, err := c20Invoke(bin, dir, c)
@@ -402,6 +419,12 @@ func c20One(w *run.Worker, bin string, c c20Case, in c20Input) {
 		}
 		w.Violate("C20:no-output:"+cfg, fmt.Sprintf("library: success, measurement %q\n%s", exp.Meas, desc), c)
 	case perr != nil:
+		for _, v := range exp.Fields {
+			if c.Output == "lineprotocol" && v == nil {
+				w.Note("unspecified_cells_skipped", 1) // a nil field has no line-protocol form
+				return
+			}
+		}
 		if c.Output == "lineprotocol" && exp.Meas == "" {
 			w.Note("unspecified_cells_skipped", 1) // a point without measurement has no line-protocol form that reads back
 			return
@@ -453,7 +476,10 @@ func c20Run(w *run.Worker) {
 				for ci, cf := range cfgs {
 					// quick tier: every script with a rotating subset of (input, config); thorough: all combinations for <=2 statements
 					if !w.Thorough || len(cur) == 3 {
-						mod := 23
+						mod := 41
+						if len(cur) == 1 {
+							mod = 5
+						}
 						if len(cur) == 3 {
 							mod = 37
 						}
@@ -525,9 +551,9 @@ func init() {
 	run.Register(&run.Check{
 		ID:    "C20",
 		Level: "model_checking",
-		Rule: "every script of <=2 (thorough <=3) statements over 26 statements (set_measurement with the empty string, use() of script files with several dots in their names, add_key with int/str/float, set_tag, drop_key, rename, set_measurement literal and from a key with delete, default_time with and without zone, use of a sibling, exit, a run-time error, a load error, cast) " +
+		Rule: "every script of <=2 (thorough <=3) statements over 31 statements (keys without a value, use() of siblings that exist but do not link, set_measurement with the empty string, use() of script files with several dots in their names, add_key with int/str/float, set_tag, drop_key, rename, set_measurement literal and from a key with delete, default_time with and without zone, use of a sibling, exit, a run-time error, a load error, cast) " +
 			"x 12 inputs (text, a JSON log line, empty text, blank text, multi-line text; line protocol with a small explicit timestamp, line protocol with tags, without tags, without timestamp, with two points, with leading comment and blank lines, with a newline inside a string field) x {workspace directory with a symlinked .p sibling, a .ppl sibling, two scripts that do not load (neither selected nor used), a non-script file and a directory named like a script; single file} x {json, lineprotocol} x {run, check only}, through the real binary " +
-			"workspace given as -w <dir>, -w <dir>/, -w . and by default (started inside it), in rotation; (quick: every script with a rotating 1/23 of the input x configuration grid; thorough: the full grid for <=2 statements, 1/37 of it for 3 statements); oracle: stdout after the marker parsed back and compared with the same script and input run through the library API (measurement, tags, fields, time), errors reported and no output block, check-only prints nothing",
+			"workspace given as -w <dir>, -w <dir>/, -w . and by default (started inside it), in rotation; (quick: every one-statement script with a rotating 1/5, every two-statement script with a rotating 1/41 of the input x configuration grid; thorough: the full grid for <=2 statements, 1/37 of it for 3 statements); oracle: stdout after the marker parsed back and compared with the same script and input run through the library API (measurement, tags, fields, time), errors reported and no output block, check-only prints nothing",
 		Assumptions: []string{"the influx line-protocol codec is trusted for parsing input and output", "text input: measurement default_name is pinned; time without an explicit timestamp is accepted within the invocation's wall-clock bracket +-2 s"},
 		Run:            c20Run,
 		Replay:         c20Replay,
